@@ -562,7 +562,7 @@ def sanitizer_stage(kctx, cls, obj, calls, tmp, k, fails, tags, ctx):
         fails.append(common.Failure("oracle", "C07:sanitizer-build-fails", f"stand-alone build of the emitted source of {ctx['type'][:160]} fails: {p.stderr[-400:]}", ctx))
         return 0
     env = dict(os.environ, ASAN_OPTIONS="detect_leaks=0:abort_on_error=0", UBSAN_OPTIONS="print_stacktrace=0")
-    q = subprocess.run([exe], capture_output=True, text=True, env=env, timeout=120)
+    q = subprocess.run([exe], capture_output=True, text=True, env=env, timeout=120, preexec_fn=common._unlimit_memory)
     tags["c07.sanitized-types"] += 1
     tags["c07.sanitized-calls"] += len(calls)
     if q.returncode != 0:
